@@ -198,3 +198,87 @@ def c13_pruned_block_selection(ctx, v):
             v.fail("the hash answered by the longest-chain index is not the one used to fetch the block that is rebroadcast")
     v.covers_total += 1
     v.covers_sat += 1 if reached else 0
+
+
+def c13_nft_group_not_split(ctx, v):
+    """Block::generate_consensus_values, the rebroadcast of a transaction whose outputs are one
+    bound group [Bound, payload, Bound] (payload of any non-Bound type: Normal when minted, ATR
+    after a first trip round the window) and all three outputs still unspent: the second pass
+    regroups exactly what the first pass collected — the group goes out through
+    Transaction::create_rebroadcast_bound_transaction (or not at all when the payout does not
+    cover the fee), never slip by slip through create_rebroadcast_transaction, which would turn
+    a Bound slip into a spendable one and drop the tracking slip.  The block loaded from disk is
+    an explicit symbolic input; the parent is not indexed (payout multiplier 1)."""
+    from .models import mk_some, mk_none
+    ex = ctx.executor(loop_bound=6, inline="auto", max_paths=6000,
+                      no_inline=[r"BurnFee::", r"get_longest_chain_block_hash_at_block_id$", r"Storage::", r"MerkleTree::", r"create_rebroadcast_bound_transaction$", r"create_rebroadcast_transaction$",
+                                 r"Slip::validate$", r"serialize_for_signature$", r"hash$", r"get_serialized_size$", r"Block::generate$", r"fmt", r"to_hex"])
+    ex.pure = [r".*"]
+    gp = ex.fresh_value("u64", "genesis_period")
+    ccfg = ctx.mk_struct(ex, "ConsensusConfig", "consensus", genesis_period=gp)
+    prev_idx = ctx.field_index("Block", "previous_block_hash")
+    slips = [L.sym_slip(ctx, ex, "out%d" % i) for i in range(3)]
+    SUP = 7 * 10**17
+    ty = lambda s: L.slip_field(ctx, s, "slip_type")
+    atr_tx = ctx.mk_struct(ex, "Transaction", "old_tx", to=S.Seq(slips, "Slip"))
+    bt = ex.fresh_value("BlockType", "atr_block.block_type")
+    atr_block = ctx.mk_struct(ex, "Block", "atr_block", transactions=S.Seq([atr_tx], "Transaction"), block_type=bt)
+
+    def hook(ex_, st, callee, args, dty):
+        if re.search(r"::get_consensus_config$", callee):
+            return mk_some(dty, S.Ref(S.Cell(ccfg)))
+        if re.search(r"AHashMap::<\[u8; 32\], Block>::get::", callee):
+            k = args[1]
+            if isinstance(k, S.Ref) and k.path and k.path[-1][0] == "f" and k.path[-1][1] == prev_idx:
+                return mk_none(dty)
+            return mk_some(dty, S.Ref(S.Cell(S.Opaque("pruned_block", "Block"))))
+        if re.search(r"get_longest_chain_block_hash_at_block_id$", callee):
+            return mk_some(dty, ex_.fresh_value("[u8; 32]", "pruned_hash"))
+        if re.search(r"Storage::load_block_from_disk$", callee):
+            res = S.EnumV("Result<Block, Error>", "Ok", None, {"Ok": S.Agg("variant", "Ok", [atr_block])})
+            return S.Agg("struct", "ReadyFuture", [res])
+        if re.search(r"Block::generate$", callee):
+            return S.EnumV("Result<(), Error>", "Ok", None, {"Ok": S.Agg("variant", "Ok", [S.Agg("tuple", "()", [])])})
+        if re.search(r"Slip::validate$", callee):
+            return z3.BoolVal(True)
+        if re.search(r"get_serialized_size$", callee):
+            return ex_.fresh_value("usize", "tx_size")
+        return None
+    ex.on_call = hook
+    bid = ex.fresh_value("u64", "block.id")
+    block = ctx.mk_struct(ex, "Block", "block", id=bid, transactions=S.Seq([], "Transaction"))
+    st = S.State()
+    st.pc.extend([z3.ULE(gp.bv, 1 << 32), z3.UGE(gp.bv, 1), z3.UGT(bid.bv, gp.bv + 1), L.enum_in_range(bt, 4), z3.Not(L.enum_is(ctx, bt, "BlockType", "Pruned")),
+                  L.enum_is(ctx, ty(slips[0]), "SlipType", "Bound"), L.enum_is(ctx, ty(slips[2]), "SlipType", "Bound"),
+                  L.enum_in_range(ty(slips[1]), L.SLIP_TYPES), z3.Not(L.enum_is(ctx, ty(slips[1]), "SlipType", "Bound"))] +
+                 [z3.ULE(L.slip_field(ctx, s, "amount").bv, SUP) for s in slips])
+    body, co = L.coroutine(ctx, ex, r"block::<impl at [^>]*>::generate_consensus_values",
+                           [S.Ref(S.Cell(block)), S.Ref(S.Cell(S.Opaque("blockchain", "Blockchain"))), S.Ref(S.Cell(S.Opaque("storage", "Storage"))), S.Ref(S.Cell(S.Opaque("cfg", "dyn Configuration")))])
+    outs = ex.run(body, [S.Ref(S.Cell(co), (), True), S.Opaque("cx", "Context")], st)
+    v.paths += len(outs)
+    reached = 0
+    for o in outs:
+        loaded = [e for e in o.events if e[0] == "call" and re.search(r"generate_block_filepath$|load_block_from_disk$", e[1])]
+        single = [e for e in o.events if e[0] == "call" and re.search(r"Transaction::create_rebroadcast_transaction$", e[1])]
+        group = [e for e in o.events if e[0] == "call" and re.search(r"Transaction::create_rebroadcast_bound_transaction$", e[1])]
+        if o.kind in ("unwound", "path-limit") or (o.kind == "unsupported" and not (single or group or loaded)):
+            return v.undecided("%s %s" % (o.kind, o.info))
+        if not loaded and not single and not group:
+            continue
+        if single:
+            r, m = ex.model_for(o.pc)
+            v.queries += 1
+            if r == z3.sat:
+                tname = [nm for nm, d in ctx.enums["SlipType"] if d == m.eval(ty(slips[1]).discr.bv, model_completion=True).as_long()]
+                v.fail("an unspent bound group [Bound, %s, Bound] is rebroadcast slip by slip (create_rebroadcast_transaction) instead of as one group" % (tname[0] if tname else "?"))
+                continue
+            if r != z3.unsat:
+                return v.undecided("solver: no verdict")
+        if len(group) > 1:
+            v.fail("the bound group is rebroadcast more than once")
+            continue
+        reached += 1 if group else 0
+    if not reached:
+        return v.undecided("the group rebroadcast was never reached")
+    v.covers_total += 1
+    v.covers_sat += 1
